@@ -67,7 +67,8 @@ pub enum Bk {
 }
 
 pub fn mem_fork(st: &MdkMemoryStorage) -> MdkMemoryStorage {
-    let s = MdkMemoryStorage::default();
+    // same limits as the original (a scenario may run with a small per-group message capacity)
+    let s = MdkMemoryStorage::with_limits(st.limits().clone());
     s.restore_snapshot(st.create_snapshot());
     s.verif_copy_group_snapshots_from(st);
     s
@@ -211,6 +212,9 @@ pub struct Cfg {
     pub max_past_epochs: usize,
     pub epoch_snapshot_retention: usize,
     pub snapshot_ttl_seconds: u64,
+    /// per-group message capacity of the memory backend (None: its default of 10000)
+    #[serde(default)]
+    pub memory_max_messages_per_group: Option<usize>,
 }
 impl Default for Cfg {
     fn default() -> Self {
@@ -221,6 +225,7 @@ impl Default for Cfg {
             max_past_epochs: d.max_past_epochs,
             epoch_snapshot_retention: d.epoch_snapshot_retention,
             snapshot_ttl_seconds: d.snapshot_ttl_seconds,
+            memory_max_messages_per_group: None,
         }
     }
 }
@@ -247,7 +252,13 @@ impl Client {
 
     pub fn with_keys(name: &str, keys: Keys, backend: Bk, cfg: &Cfg) -> Client {
         let mdk = match backend {
-            Bk::Memory => Mdk::Mem(MDK::builder(MdkMemoryStorage::default()).with_config(cfg.to_mdk()).build()),
+            Bk::Memory => {
+                let st = match cfg.memory_max_messages_per_group {
+                    Some(n) => MdkMemoryStorage::with_limits(mdk_memory_storage::ValidationLimits::default().with_max_messages_per_group(n)),
+                    None => MdkMemoryStorage::default(),
+                };
+                Mdk::Mem(MDK::builder(st).with_config(cfg.to_mdk()).build())
+            }
             Bk::Sqlite => {
                 let path = scratch_file(name);
                 let st = sqlite_open(&path);
@@ -573,12 +584,11 @@ fn group_obs_impl<S: MdkStorageProvider>(m: &MDK<S>, gid: &GroupId) -> Option<Gr
         }
         Err(_) => (vec![], vec![]),
     };
-    let mut messages: Vec<Value> = m
-        .get_messages(gid, Some(mdk_storage_traits::groups::Pagination::new(Some(10000), Some(0))))
-        .unwrap_or_default()
-        .iter()
-        .map(message_json)
-        .collect();
+    // a listing that fails is an observation of its own (not an empty list)
+    let mut messages: Vec<Value> = match m.get_messages(gid, Some(mdk_storage_traits::groups::Pagination::new(Some(10000), Some(0)))) {
+        Ok(v) => v.iter().map(message_json).collect(),
+        Err(e) => vec![serde_json::json!({"id": "", "listing_failed": err_variant(&e)})],
+    };
     messages.sort_by_key(|v| v["id"].as_str().unwrap_or("").to_string());
     let last_message = m
         .get_last_message(gid, mdk_storage_traits::groups::MessageSortOrder::CreatedAtFirst)
